@@ -124,6 +124,8 @@ fn corpus() -> Vec<&'static str> {
         "prog 1 1 6 - loop 1 1 conde 3 1 eq i1 v0 1 eq i2 v0 1 eq i3 v0",
         "prog 3 3 5 - call append 3 v0 v1 v2",
         "prog 2 2 0 - infd v0 I 0 3 infd v1 I 0 3 ltfd v0 v1",
+        // a simplified disequality subsumes a stored one in the middle of a pass; a third one is violated (C09-b)
+        "prog 6 6 0 - neq cons v0 cons v1 nil cons i7 cons i2 nil neq cons v1 cons v2 nil cons i2 cons i3 nil neq v3 v4 eq cons v3 cons v0 nil cons v4 cons i7 nil",
     ]
 }
 
@@ -135,7 +137,12 @@ pub fn run(seed: u64, thorough: bool, out: &mut Out) {
     let n = if thorough { 3000 } else { 300 };
     for i in 0..n {
         let mut r = Rng::new(seed, 9, i);
-        match r.below(3) {
+        match r.below(4) {
+            3 => {
+                // one run_constraints pass over several disequalities, one multi-binding unification, nothing after
+                out.stat("tree_store_pass");
+                record(&TreeGen::store_pass(&mut r), true, out);
+            }
             0 => {
                 // tree programs with several disequalities (store iteration order matters most here)
                 let g = TreeGen { nq: 1 + r.below(2), nh: r.below(3), compounds: r.chance(1, 3), max_atoms: 6, conde: r.chance(1, 2) };
